@@ -33,7 +33,7 @@ def _warp_clock():
 def _prehistory():
     from d42 import fake, schema
     from . import panel
-    for kind in range(4):
+    for kind in range(7):
         for depth in (6, 5, 2):
             try:
                 panel.failing(kind, depth)
